@@ -317,15 +317,22 @@ def run_pm(case) -> list[Failure]:
     num_pools, ops = case["num_pools"], case["ops"]
     if num_pools not in (1, 2, 3) or not isinstance(ops, list) or len(ops) > 16:
         raise core.InvalidCase
+    mgr = case.get("mgr", "pm")
+    if mgr not in ("pm", "proxy") or (mgr == "proxy" and any(op[0] not in ("cfu", "clear") for op in ops)):
+        raise core.InvalidCase  # through a ProxyManager only the cache itself is exercised (https origins = one pool each)
+    ORIGINS = globals()["ORIGINS"] if mgr == "pm" else [o.replace("http://", "https://") for o in globals()["ORIGINS"]]
+    dflt_port = 80 if mgr == "pm" else 443
     srv = _TagServer()
     fails: list[Failure] = []
     sig = {"part": "pm", "num_pools": num_pools}
+    if mgr == "proxy":
+        sig["mgr"] = "proxy"
     ref_order: list = []  # origin indices, LRU first
     held: list = []  # (response, origin idx, target, pool)
     evicted_with_inflight = False
     brief = f"{ {k: v for k, v in case.items() if k != 'kind'} }"
     with fakenet.Net(srv) as net:
-        pm = urllib3.PoolManager(num_pools=num_pools)
+        pm = urllib3.PoolManager(num_pools=num_pools) if mgr == "pm" else urllib3.ProxyManager("http://proxy.test:3128", num_pools=num_pools)
         pools_seen: dict = {}
 
         def touch(i):
@@ -392,7 +399,7 @@ def run_pm(case) -> list[Failure]:
             if len(cached) > num_pools:
                 fails.append(Failure("bound", sig, f"step {step}: {len(cached)} pools cached, num_pools={num_pools}: {brief}"))
             got_hosts = sorted((k.key_host, k.key_port) for k in cached)
-            want_hosts = sorted((ORIGINS[i].split("//")[1].split(":")[0], int(ORIGINS[i].rsplit(":", 1)[1]) if ORIGINS[i].count(":") == 2 else 80) for i in ref_order)
+            want_hosts = sorted((ORIGINS[i].split("//")[1].split(":")[0], int(ORIGINS[i].rsplit(":", 1)[1]) if ORIGINS[i].count(":") == 2 else dflt_port) for i in ref_order)
             if got_hosts != want_hosts:
                 fails.append(Failure("lru-victim", sig, f"step {step} {op}: cached {got_hosts}, reference LRU says {want_hosts}: {brief}"))
                 break
@@ -693,11 +700,14 @@ def run_shard(spec):
 
         op = st.one_of(st.tuples(st.sampled_from(["request", "hold", "cfu", "hold"]), st.integers(0, 3)).map(list), st.just(["clear"]), st.just(["finish"]), st.just(["finish"]))
         strat = st.fixed_dictionaries({"kind": st.just("pm"), "num_pools": st.integers(1, 3), "ops": st.lists(op, min_size=2, max_size=12)})
+        # every fifth case: the cache of a ProxyManager (https origins, one tunnelled pool each; lookups and clear only)
+        pop = st.one_of(st.tuples(st.just("cfu"), st.integers(0, 3)).map(list), st.tuples(st.just("cfu"), st.integers(0, 3)).map(list), st.just(["clear"]))
+        strat = st.one_of(strat, strat, strat, strat, st.fixed_dictionaries({"kind": st.just("pm"), "mgr": st.just("proxy"), "num_pools": st.integers(1, 3), "ops": st.lists(pop, min_size=2, max_size=12)}))
 
         def body(case):
             fails = run_pm(case)
             nt = case.pop("_inflight_evicted", False)
-            col.case(case, nt, ["pm", "num_pools:%d" % case["num_pools"]] + (["eviction-with-response-in-flight"] if nt else []), fails)
+            col.case(case, nt or case.get("mgr") == "proxy", ["pm", "mgr:" + case.get("mgr", "pm"), "num_pools:%d" % case["num_pools"]] + (["eviction-with-response-in-flight"] if nt else []), fails)
 
         core.hyp_run(strat, spec["n"], spec["seed"], body)
     return col
